@@ -38,9 +38,10 @@ the numerical guards of the EM routine.  They are used for *attribution* only:
     Every case is labelled with the share of its comparisons that is demanded
     (``demanded<20%`` ... ``demanded>=80%``; ``demanded_with_no_guard_event...`` for the event-free
     share): a run whose cases sit mostly in ``demanded<20%`` checks next to nothing.
-  * mt_ascent additionally reads, through a read-only wrapper of the model's ``_update_em``,
-    the largest membership after every EM iteration (needed for the U_SMALL precondition; when
-    the method does not exist the policy falls back to excusing, label ``no_umax_probe``).
+  * mt_ascent additionally reads the largest membership after every EM iteration from the
+    guarded hook (GUARD_UMAX, one number per 'em_iteration_done' marker; needed for the U_SMALL
+    precondition; on a tree whose hook lacks it the policy falls back to excusing, label
+    ``no_umax_probe``).
 """
 
 import math
@@ -93,9 +94,10 @@ ASSUMPTIONS = [
     "450947 comparisons in 40884 cases, largest relative decrease 4.6e-15 (no event at all: "
     "1.7e-15); spectral start: 98157 comparisons, 74 decreases of relative size 1e-9 .. 7.8; "
     "after psiOmega_zeroed: 106069 comparisons, 335 decreases up to 98",
-    "the largest membership per EM iteration is read by wrapping the model's private _update_em "
-    "(read-only; rows are assigned at most once per iteration, start rows are normalised); "
-    "without that method gross events excuse as before",
+    "the largest membership per EM iteration comes from the guarded hook (GUARD_UMAX; rows are "
+    "assigned at most once per iteration, start rows are normalised); guard events are "
+    "attributed to iterations by the hook's end-of-iteration marker, independently of how often "
+    "the likelihood is evaluated; without that part of the hook gross events excuse as before",
     "K > number of nodes in a hyperedge (up to K = 6) is generated for baseline_r0=False only "
     "(K <= covered nodes is the k-means precondition of the spectral start)",
     "stdout of the library (verbose=True in a fraction of the cases, unconditional prints of "
@@ -240,25 +242,12 @@ def seed_globals(k):
     np.random.seed(k % (2**32))
 
 
-def attach_umax_probe(model):
-    """Read-only probe: the largest entry of the membership matrix after every EM iteration
-    (one number per call of the model's ``_update_em``).  Every node's row is assigned at most
-    once per iteration and the start rows are normalised (entries <= 1), so the running maximum
-    of the recorded numbers is the largest membership the realisation has held so far.  Returns
-    the list the numbers are appended to, or None when the model has no such method (then the
-    policy below falls back to excusing everything it cannot judge)."""
-    orig = getattr(model, "_update_em", None)
-    if not callable(orig):
-        return None
-    rec = []
-
-    def probed():
-        orig()
-        u = getattr(model, "u", None)
-        rec.append(float(np.max(u)) if u is not None and np.size(u) else float("nan"))
-
-    model._update_em = probed
-    return rec
+def hook_umax():
+    """The hook's list of the largest membership after every EM iteration (HGX_VERIF=1), or
+    None when the tree's hook does not record it (then the policy below falls back to excusing
+    everything it cannot judge, label no_umax_probe)."""
+    import importlib
+    return getattr(importlib.import_module(MT), "GUARD_UMAX", None)
 
 
 def run_mt(case, h, global_seed=None, probe=False):
@@ -271,7 +260,9 @@ def run_mt(case, h, global_seed=None, probe=False):
         min_value_par=case["min_value_par"], check_convergence_every=1,
         verbose=case["verbose"],
     )
-    umax = attach_umax_probe(model) if probe else None
+    umax = hook_umax() if probe else None
+    if umax is not None:
+        del umax[:]
     # BLAS/OpenMP pools of 16 threads per worker process make a 10 ms fit take seconds
     with threadpoolctl.threadpool_limits(limits=1):
         if case.get("reused"):
@@ -441,7 +432,7 @@ U_SMALL = 10.0
 # comparisons that follow psiBarOmega_zeroed events only (random start): a decrease above
 # BENIGN_TOL * (1 + |L[t]|) is a violation, a smaller one (above ASC_TOL) the known finding.
 BENIGN_TOL = 1e-6
-MARK_REAL, MARK_LL = "realization_started", "loglik_evaluated"
+MARK_REAL, MARK_LL, MARK_IT = "realization_started", "loglik_evaluated", "em_iteration_done"
 
 
 class Events:
@@ -449,7 +440,11 @@ class Events:
 
     def __init__(self, counts, log):
         self.counts = counts
-        self.per_real = []  # per realisation: list (per likelihood evaluation) of event lists
+        self.per_real = []  # per realisation: list (per EM iteration) of event lists
+        # newer hook: a marker at the END of every EM iteration (independent of how often the
+        # likelihood is evaluated); older hook: one marker per likelihood evaluation
+        by_iteration = MARK_IT in log
+        mark = MARK_IT if by_iteration else MARK_LL
         cur = None
         for name in log:
             if name == MARK_REAL:
@@ -457,13 +452,16 @@ class Events:
                 cur = self.per_real[-1]
             elif cur is None:
                 continue
-            elif name == MARK_LL:
+            elif name == mark:
                 cur.append([])
+            elif name in (MARK_LL, MARK_IT):
+                continue
             else:
                 cur[-1].append(name)
-        # the trailing (empty) segment after the last evaluation is dropped
+        # the trailing segment after the last marker is dropped (events after the last
+        # iteration belong to no comparison); with the older hook only when it is empty
         for segs in self.per_real:
-            if segs and not segs[-1]:
+            if segs and (by_iteration or not segs[-1]):
                 segs.pop()
 
     umax = None  # per realisation: largest membership after each iteration (probe), or None
@@ -517,7 +515,8 @@ class Events:
         return None
 
     def summary(self):
-        return {k: v for k, v in sorted(self.counts.items()) if k not in (MARK_REAL, MARK_LL)}
+        return {k: v for k, v in sorted(self.counts.items())
+                if k not in (MARK_REAL, MARK_LL, MARK_IT)}
 
 
 def label_events(ev, ctx):
